@@ -41,6 +41,25 @@ theorem frame_round_trips_under_any_chunking (E : Env) (ok : EnvOK E) (hE : DecB
   obtain ⟨h1, h2⟩ := hv.2 c' rest' out' hc
   exact ⟨h1, h2, (LZ4V.C08.complete_only_if_spec E hE c [] f hr sched c' rest' out' hc).2⟩
 
+/-- **the same for LINKED blocks (the default block mode)**: the frame `Model/FrameLinked.lean` produces — for any schedule of block placements and history
+    saves, on a compression context with any past — fed to the `LZ4F_decompress` model under ANY split of the compressed input and ANY output capacity per
+    call never fails, and when it completes it has returned exactly the blocks fed, consumed the whole frame, and left the context ready for the next one -/
+theorem linked_frame_round_trips_under_any_chunking (E : Env) (okL : LZ4V.Model.FrameLinked.EnvOKL E) (hE : DecBounded E)
+    (hashOf : Array UInt8 → Bool → Nat → Nat) (p : Prefs) (hb : 4 ≤ p.bsid ∧ p.bsid ≤ 7) (hcs64 : p.contentSize < 256 ^ 8) (hd32 : p.dictID < 256 ^ 4)
+    (S0 : LZ4V.Model.FastX.XState) (hI0 : LZ4V.Model.FastX.Inv S0 []) (hnd0 : S0.dctx = none) (lops : List LZ4V.Model.FrameLinked.LOp)
+    (hleg : LZ4V.Model.FrameLinked.LegalSizes p lops)
+    (hcs : p.contentSize = 0 ∨ p.contentSize = (LZ4V.Model.FrameLinked.contentOf lops).length)
+    (c : Ctx) (hr : LZ4V.C08.Ready c []) (sched : List (Nat × Nat)) :
+    (∀ code, session E c (LZ4V.Model.FrameLinked.frameFrom E hashOf p S0 lops) sched [] ≠ .failed code) ∧
+    (∀ c' rest' out', session E c (LZ4V.Model.FrameLinked.frameFrom E hashOf p S0 lops) sched [] = .complete c' rest' out' →
+      out' = LZ4V.Model.FrameLinked.contentOf lops ∧ rest' = [] ∧ LZ4V.C08.Ready c' c'.dict) := by
+  have hF := LZ4V.Model.FrameLinked.frameFrom_parses E okL hashOf p hb hcs64 hd32 S0 hI0 hnd0 lops hleg hcs
+  have hv := LZ4V.C08.valid_frame_decodes E hE c [] _ hr _ (LZ4V.Model.FrameLinked.contentOf lops) [] hF sched
+  refine ⟨hv.1, ?_⟩
+  intro c' rest' out' hc
+  obtain ⟨h1, h2⟩ := hv.2 c' rest' out' hc
+  exact ⟨h1, h2, (LZ4V.C08.complete_only_if_spec E hE c [] _ hr sched c' rest' out' hc).2⟩
+
 /-- the hypotheses on the environment are satisfiable together -/
 example (hash : Bytes → Nat) (h32 : ∀ l, hash l < 4294967296) : EnvOK (specEnv hash) ∧ DecBounded (specEnv hash) :=
   ⟨specEnv_ok hash h32, specEnv_bounded hash⟩
